@@ -16,7 +16,8 @@ Lemma leaf_crit_extend_to_ok g s d wr :
   {| Classic.xs := Classic.xs s; Classic.tr := Classic.tr s;
      Classic.crit := fst (leaf_crit_extend_to (Classic.crit s) wr d) |}.
 Proof. first [ solve [ reflexivity ]
-             | solve [ cbn [Classic.xstep Classic.quiet fst]; f_equal; unfold leaf_crit_extend_to; cbv zeta; cbn [fst]; lia ] ]. Qed.
+             | solve [ cbn [Classic.xstep Classic.quiet fst]; f_equal; unfold leaf_crit_extend_to; cbv zeta; cbn [fst]; lia ]
+             | solve [ cbn [Classic.xstep Classic.quiet fst]; f_equal; leaf_auto2 ] ]. Qed.
 
 (** the counter: one more per call, wrapping at 2^64 (an AtomicU64 never panics) *)
 Lemma leaf_crit_extend_to_count_ok c wr d :
